@@ -44,6 +44,12 @@ subproject('sub')
     'subprojects/sub/meson.options': "option('s', type: 'string', value: 'sdef')\n",
 }
 
+SRC_C = dict(SRC)
+SRC_C['meson.build'] = SRC['meson.build'].replace("project('kp',", "project('kp', 'c',") + \
+    "lib = static_library('kl', 'kl.c')\nexe = executable('ke', 'ke.c', link_with: lib, install: true)\ntest('kt', exe)\n"
+SRC_C['kl.c'] = 'int kl(void) { return 0; }\n'
+SRC_C['ke.c'] = 'int kl(void); int main(void) { return kl(); }\n'
+
 KEYS: T.List[T.Tuple[str, T.Optional[str]]] = [('x', ''), ('n', ''), ('s', 'sub'), ('warning_level', None), ('buildtype', None)]
 LABEL = {('x', ''): 'x', ('n', ''): 'n', ('s', 'sub'): 'sub:s', ('warning_level', None): 'warning_level', ('buildtype', None): 'buildtype'}
 DEFAULTS = {'x': 'xdef', 'n': 1, 'sub:s': 'sdef', 'warning_level': '2', 'buildtype': 'debug'}
@@ -97,6 +103,10 @@ def cases(tier: str) -> T.List[Case]:
                  ['configure', '@B', '-Dsub:s=s3', '-Dbuildtype=plain'],
                  _vals(x='v2', n=7, sub__s='s1', buildtype='release'), _vals(x='v2', n=7, sub__s='s3', buildtype='plain'),
                  ['setup', '--reconfigure', '@B', '@S']),
+            Case('reconfigure-c', 'reconfigure', [setup1],
+                 ['setup', '--reconfigure', '@B', '@S', '-Dx=v2', '-Dsub:s=s2'],
+                 v1, _vals(x='v2', n=7, sub__s='s2', buildtype='release'), ['setup', '--reconfigure', '@B', '@S']),
+            Case('fresh-setup-c', 'setup', [], setup1, None, v1, setup1),
             Case('reconfigure-twice', 'reconfigure',
                  [setup1, ['configure', '@B', '-Dn=9']],
                  ['setup', '--reconfigure', '@B', '@S', '-Dn=10', '-Dbuildtype=debug'],
@@ -119,7 +129,7 @@ class Arena:
         self.src = os.path.join(root, 'src')
         self.b = os.path.join(root, 'b')
         self.snap = os.path.join(root, 'snap')
-        runner.write_tree(self.src, SRC)
+        runner.write_tree(self.src, SRC_C if case.name.endswith('-c') else SRC)
         self.ok = True
         self.err = ''
         for h in case.history:
